@@ -26,6 +26,7 @@ def run(ctx):
     rng = ctx.rng
     R.warm_up()
     _histories(ctx, impl)
+    _wide_overlaps(ctx, impl)
     for _ in range(ctx.budget(400, 5000)):
         n = rng.choice([1, 2, 2, 3, 3, 4, 5, 6])
         rows, r = G.rand_tableau(rng, n)
@@ -229,3 +230,26 @@ def _histories(ctx, impl):
                     ctx.fail('StabilizerState.expect(StabilizerState)', 'after the history %s the overlap is %s, Tr(rho sigma) = %s' % ([h[0] for h in hist], ov, round(wv, 6)), dict(rows=rows, history=hist, rows2=rows2, r2=r2))
         except Exception as e:
             ctx.fail('StabilizerState.expect', 'implementation raised %r after the history %s' % (e, [h[0] for h in hist]), dict(rows=rows, history=hist))
+
+
+def _wide_overlaps(ctx, impl):
+    """overlaps and bit-string probabilities that need many halvings: |+>^k |0>^(N-k) against computational-basis states on
+    40 ... 100 qubits; the exact value is 2^-k (textbook factorisation), beyond the range of 64-bit integers for k >= 63"""
+    rng = ctx.rng
+    pc = impl.pc
+    for N, k in [(40, 40), (64, 62), (64, 63), (64, 64), (70, 66), (100, 100)][:ctx.budget(4, 6)] + [(rng.choice([65, 72]), rng.choice([63, 64, 65]))]:
+        rows = [(tuple('X' if j == i else 'I' for j in range(N)), 0) if i < k else (tuple('Z' if j == i else 'I' for j in range(N)), 0) for i in range(N)] + \
+               [(tuple('Z' if j == i else 'I' for j in range(N)), 0) if i < k else (tuple('X' if j == i else 'I' for j in range(N)), 0) for i in range(N)]
+        ctx.case(('wide-overlap', N, k), True, sample=dict(op='overlap with many halvings', N=N, halvings=k))
+        ctx.count('wide-overlap:k=%d' % k)
+        want = 2.0 ** (-k)
+        try:
+            bits = np.array([rng.randrange(2) for _ in range(k)] + [0] * (N - k))
+            vals = [('expect(zero_state)', float(impl.state(rows, 0).expect(pc.zero_state(N)))),
+                    ('zero_state.expect(state)', float(pc.zero_state(N).expect(impl.state(rows, 0)))),
+                    ('get_prob(b)', float(impl.state(rows, 0).get_prob(bits)))]
+        except Exception as e:
+            ctx.fail('StabilizerState.expect(StabilizerState)', 'implementation raised %r on %d qubits' % (e, N), dict(N=N, k=k)); continue
+        for nm, v in vals:
+            if v != want:
+                ctx.fail('StabilizerState.expect(StabilizerState)', '%s of |+>^%d |0>^%d is %r, the exact value is 2^-%d = %r' % (nm, k, N - k, v, k, want), dict(N=N, k=k)); break
